@@ -817,6 +817,13 @@ Qed.
 Lemma singles_flat : forall ws d, apply_batches d (map (fun w => [w]) ws) = apply_batch d ws.
 Proof. induction ws; simpl; intros; auto. Qed.
 
+Lemma step_recover_eq : forall W d m,
+  step W (d, m) (Restart false) = (apply_batch d (reinit_w W d), reinit W d).
+Proof.
+  intros. unfold step. cbn [plan fst snd andb app apply_batches fold_left].
+  rewrite <- (singles_flat (reinit_w W d) d). reflexivity.
+Qed.
+
 (* the empty database satisfies everything *)
 Lemma idx_init : forall W, IdxD W disk0 /\ MemCover disk0 rf0.
 Proof.
@@ -840,8 +847,21 @@ Proof.
   pose proof (init_writes_idx W d h (reinit_w W d) d Hi Hws eq_refl eq_refl
                 (length (map (fun w => [w]) (reinit_w W d)))) as X.
   rewrite firstn_all, singles_flat in X. destruct X as (I' & F1 & F2).
-  unfold step in HG. cbn [plan fst snd andb app] in HG. unfold apply_batches at 1 in HG. cbn [fold_left] in HG.
-  change (fold_left apply_batch (map (fun w => [w]) (reinit_w W d)) d) with (apply_batches d (map (fun w => [w]) (reinit_w W d))) in HG.
-  rewrite singles_flat in HG. destruct HG as (C' & K' & S').
+  rewrite step_recover_eq in HG. destruct HG as (C' & K' & S').
   apply covers_of_inv; auto. apply (mem_fields_eq d); auto.
+Qed.
+
+Lemma crash_index_covers : forall W ops k st, 0 < W -> IdxGood W st ->
+  ops_env W ops st = true -> ops_fresh W ops st = true ->
+  index_covers W (fst (exec_crash W ops k st)) = true.
+Proof.
+  intros W ops k st HW HI He Hf. simpl.
+  destruct (crash_consistent W ops k st HW (proj1 HI) He) as [C K].
+  apply index_covers_general; auto. apply crash_idx; auto.
+Qed.
+
+Lemma good_init : forall W, 0 < W -> IdxGood W (disk0, rf0).
+Proof.
+  intros W HW. destruct (idx_init W) as [A B]. split; [|split; auto].
+  split; [|split]; try reflexivity.
 Qed.
